@@ -1,14 +1,15 @@
 /-
   Props/C13Src.lean — C13, source level (PARTIAL tie): io/csv_io.py and io/raw.py are translated on every run
   (tools/extract_csv.py → Extracted/CsvSrc.lean: the cell parsers and formatters, `read_csv`, `write_csv`, `tasks_to_raws`, `raws_to_wbs`).
-  Proved in general: the numbering of texts round-trips and `__parse_str` is the model's `nonEmpty`.  The other cell functions, the
-  write side (header order, one row per task in WBS order with parent and predecessor ids = the model's `writeCsv` of the records) and
-  the read side (= the model's `readCsv` + `rebuildForest`, older files without `min_start`, BOM, permuted columns, the error cases)
-  are tied by kernel-evaluated runs of the translated program on concrete files (Lemmas/CsvSrcCheck*.lean - imported here, so a
-  translated source that no longer reproduces them breaks this module): tests at the level of the kernel, not theorems about every
-  input.
+  Proved in general, for every meaning `L` of the built-ins (Lemmas/CsvSrcA.lean, CsvSrcB*.lean, CsvSrcW*.lean, CsvSrcR*.lean): every cell
+  parser and `__format_custom`, `__parse_header` (= the model's `headerIndex`), and the whole WRITE side: `write_csv` of a well-formed
+  WBS description is the model's `writeCsv` of the records.  The READ side is proved down to the record layer (`read_csv` = `raws_to_wbs`
+  on the parsed rows, success direction); `raws_to_wbs` = the model's `rebuildForest`, the error direction and so the full reader are
+  tied by kernel-evaluated runs of the translated program on concrete files (Lemmas/CsvSrcCheckC.lean - imported here, so a translated
+  source that no longer reproduces them breaks this module): tests at the level of the kernel, not theorems about every input.
 -/
 import PjVerif.Lemmas.CsvSrcD
+import PjVerif.Lemmas.CsvSrcB
 import PjVerif.Lemmas.CsvSrcCheckA
 import PjVerif.Lemmas.CsvSrcCheckB
 import PjVerif.Lemmas.CsvSrcCheckC
@@ -23,5 +24,50 @@ theorem C13_source_text_code_roundtrip (s : List Char) : strDecode (strCode s) =
 theorem C13_source_parse_str (L : IOLib) (F : Nat) (s : List Char) :
     CsvSrc.interpCell L (F + 1) Extracted.Csv.fn_parse_str (strA s) = .ok (.atom (CsvSrc.optStr (nonEmpty s))) :=
   CsvSrc.parse_str_eq L F s
+
+/-- the translated cell parsers: an empty cell is `None`; otherwise the library conversion decides, its error being the cell's error -/
+theorem C13_source_parse_bool (L : IOLib) (F : Nat) (s : List Char) :
+    CsvSrc.interpCell L (F + 1) Extracted.Csv.fn_parse_bool (strA s) = .ok (.atom (.bool (s == "True".toList))) :=
+  CsvSrc.parse_bool_eq L F s
+
+theorem C13_source_parse_int (L : IOLib) (F : Nat) (s : List Char) :
+    CsvSrc.interpCell L (F + 1) Extracted.Csv.fn_parse_int (strA s) = CsvSrc.cellParse L.toInt PyLite.Atom.num s :=
+  CsvSrc.parse_int_eq L F s
+
+theorem C13_source_parse_float (L : IOLib) (F : Nat) (s : List Char) :
+    CsvSrc.interpCell L (F + 1) Extracted.Csv.fn_parse_float (strA s) = CsvSrc.cellParse L.toFloat PyLite.Atom.num s :=
+  CsvSrc.parse_float_eq L F s
+
+theorem C13_source_parse_date (L : IOLib) (F : Nat) (s : List Char) :
+    CsvSrc.interpCell L (F + 1) Extracted.Csv.fn_parse_date (strA s) = CsvSrc.cellParse L.strptime PyLite.Atom.time s :=
+  CsvSrc.parse_date_eq L F s
+
+/-- `__parse_predecessors`: the cell split on ';', every piece through `int()` -/
+theorem C13_source_parse_predecessors (L : IOLib) (F : Nat) (s : List Char) :
+    CsvSrc.interpCell L (F + 1) Extracted.Csv.fn_parse_predecessors (strA s) =
+      if s = [] then .ok (.list []) else ((splitOn ';' s).mapM L.toInt).map (fun qs => PyLite.Val.list (qs.map PyLite.Atom.num)) :=
+  CsvSrc.parse_predecessors_eq L F s
+
+/-- `__format_custom`: datetimes through `strftime`, every other value unchanged (0, 0.0, False, '' and None included - the empty
+    cell for `None` is the csv writer's doing) -/
+theorem C13_source_format_custom (L : IOLib) (F : Nat) (a : PyLite.Atom) :
+    CsvSrc.interpCell L (F + 1) Extracted.Csv.fn_format_custom a =
+      match a with
+      | .time t => .ok (.atom (strA (L.strftime t)))
+      | .ref _ => .error PyLite.stuck
+      | a => .ok (.atom a) :=
+  CsvSrc.format_custom_eq L F a
+
+/-- `__parse_header` is the model's `headerIndex`: BOM stripped, the last of repeated column names wins -/
+theorem C13_source_header_index (cells : List Str) (name : Str) :
+    PyLite.Dict.get? (CsvSrc.hdrDict cells) (strA name) = (headerIndex cells name).map CsvSrc.numI :=
+  CsvSrc.hdrDict_get cells name
+
+/-- the WRITE side: running the translated `write_csv` (with `tasks_to_raws`, the header assembly, the row loop and the csv writer) on
+    a well-formed description `W` of a WBS (`WF`: indices in range, custom attribute names distinct, not slot names, not starting
+    with '_', values None / number / bool / str / datetime) produces exactly the model's file -/
+theorem C13_source_write_csv (L : IOLib) (F : Nat) (W : CsvSrc.WbsD) (hWF : CsvSrc.WF W) :
+    CsvSrc.interpWrite L (F + 3) W = .ok (writeCsv (CsvSrc.recsOf L W)) :=
+  CsvSrc.write_csv_eq L F W hWF
 
 end Pj
